@@ -150,7 +150,10 @@ Contract(U_, 'URLInfo.is_ipv6', SU, ret=TOpt(TBool()), prop='C11/C10', requires=
 Contract(U_, 'URLInfo.is_port_default', SU, ret=TOpt(TBool()), prop='C11', requires=WELLFORMED, ensures=[], raises={})
 Contract(U_, 'URLInfo.split_path', SU, ret=TTuple(TStr(), TStr()), prop='C11', requires=WELLFORMED, ensures=[], raises={})
 HWP = Contract(U_, 'URLInfo.hostname_with_port', SU, ret=TStr(), prop='C11/C10', requires=WELLFORMED, is_property=True,
-         ensures=[('non-network-empty', 'implies(not %s, result == "")' % NETSELF)], raises={}, replay='url:replay_accessor', observe=['self.raw'])
+         ensures=[('non-network-empty', 'implies(not %s, result == "")' % NETSELF),
+                  # C16: the Host field names the URL's host (IPv6 bracketed) and the port ONLY IF non-default
+                  ('host-and-non-default-port', 'implies(%s, result == %s + %s)' % (NETSELF, HOSTP, PORTP), {'C16', 'C10'})],
+         raises={}, replay='url:replay_accessor', observe=['self.raw'])
 Contract(U_, 'URLInfo.url', SU, ret=TStr(), prop='C11/C10', requires=WELLFORMED, is_property=True,
          modifies=['self._url'],
          ensures=[('cached', 'self._url == result'),
